@@ -17,7 +17,8 @@ CORPUS = os.path.join(os.path.dirname(os.path.dirname(os.path.dirname(os.path.ab
 
 
 def regen(ctx):
-    from translate import c10_tables
+    from translate import c10_skeleton, c10_tables
+    c10_skeleton.regen(ctx)
     t = c10_tables.regen(ctx)
     ctx.extra['source_tables'] = {'requests': t['requests'], 'handlers': t['handlers'], 'guarded': t['guarded'],
                                   'exc_guarded': t['exc_guarded'],
@@ -27,8 +28,11 @@ def regen(ctx):
 # ----------------------------------------------------------------------------- oracle
 def oracle(scn, res):
     """The property over implementation observables only.  Yields (signature, description)."""
-    outstanding = False
+    outstanding = {}            # per bearer
+    if res['stray']:
+        yield ('pdu-on-another-bearer', f'PDUs {res["stray"][:3]} were sent on a bearer other than the one stimulated')
     for i, (o, out, mtu) in enumerate(zip(res['ops'], res['outs'], res['mtus'])):
+        bk = res['op_bearer'][i]
         pdus = [bytes.fromhex(p) for p in out]
         if res['escaped'][i] == 'hang':
             yield ('handler-never-finishes', f'op {i} {o[:2]}: a handler task was still running after {ac.STEP_BUDGET} loop rounds')
@@ -54,19 +58,42 @@ def oracle(scn, res):
         elif o[0] == 'rx2c':
             if len(pdus) > 1 or any(p[0] != 0x1D for p in pdus):
                 yield ('confirmation-answered', f'op {i}: two confirmations got {out}')
+        elif o[0] == 'burst':
+            # every request of the burst is answered exactly once, nothing else is (a confirmation may release
+            # one waiting indication)
+            want = [bytes.fromhex(h)[0] for h in o[1] if bytes.fromhex(h)[0] in ac.REQUEST_OPCODES]
+            has_conf = any(bytes.fromhex(h)[0] == 0x1E for h in o[1])
+            rest = list(want)
+            extra = []
+            for p in pdus:
+                opc = next((q for q in rest if p[0] == q + 1 or (len(p) == 5 and p[0] == 0x01 and p[1] == q)), None)
+                if opc is None:
+                    extra.append(p)
+                else:
+                    rest.remove(opc)
+            if rest:
+                yield ('burst:unanswered:op=0x%02X' % rest[0],
+                       f'op {i}: burst {o[1]}: requests {[hex(x) for x in rest]} not answered, got {out}')
+            ind = [p for p in extra if p[0] == 0x1D]
+            other = [p for p in extra if p[0] != 0x1D]
+            if other or len(ind) > (1 if has_conf else 0):
+                yield ('burst:unsolicited', f'op {i}: burst {o[1]} got unsolicited {[p.hex() for p in extra]}')
+            mtu = max(mtu, res['mtus_after'][i])
         for p in pdus:
             if len(p) > mtu:
                 kind = {0x1B: 'notification', 0x1D: 'indication'}.get(p[0], 'response')
                 yield (f'over-mtu:{kind}:0x{p[0]:02X}',
                        f'op {i} {o[:2]}: {kind} of {len(p)} bytes with ATT_MTU {mtu}')
-        confirm = o[0] == 'rx2c' or (o[0] == 'rx' and o[1][:2].lower() == '1e')
+        confirm = o[0] == 'rx2c' or (o[0] == 'rx' and o[1][:2].lower() == '1e') or \
+            (o[0] == 'burst' and any(h[:2].lower() == '1e' for h in o[1]))
         if confirm:
-            outstanding = False
+            outstanding[bk] = False
         for p in pdus:
             if p[0] == 0x1D:
-                if outstanding:
-                    yield ('two-indications-outstanding', f'op {i}: indication sent while one awaits confirmation')
-                outstanding = True
+                if outstanding.get(bk):
+                    yield ('two-indications-outstanding',
+                           f'op {i}: indication sent on bearer {bk} while one awaits confirmation there')
+                outstanding[bk] = True
 
 
 # ----------------------------------------------------------------------------- generation
@@ -136,6 +163,11 @@ def gen_initiated_scenario(rng, n_ops):
         elif r < 14:
             scn['ops'].append(['indicate', h, val, rng.chance(1, 3)])
             queued += 1
+            if rng.chance(1, 5):
+                # confirmation followed by several indications: only the first may go out
+                scn['ops'].append(['rx', '1e'])
+                for _ in range(3):
+                    scn['ops'].append(['indicate', h, ac.gen_value(rng).hex(), True])
         elif r < 17:
             scn['ops'].append(['rx', '1e'])
             queued = max(0, queued - 1)
@@ -179,6 +211,96 @@ def boundary_suite(mtus, wide):
     return out
 
 
+def gen_multi_scenario(rng, k, n_ops):
+    """Several bearers on ONE server: two connections with different security and an EATT bearer on one of
+    them (or on a third connection), different ATT_MTUs; requests, CCCD writes, notifications and indications
+    (forced / subscribed, value given / read), confirmations (also spurious and doubled) and MTU raises
+    interleaved across the bearers."""
+    chars = []
+    for i in range(rng.range(2, 3)):
+        c = {'uuid': '%04X' % (0x2A10 + i), 'props': 0x3A, 'descs': [], 'perm': rng.choice([1, 3, 3, 1 | 4, 3 | 16]),
+             'value': ac.gen_value(rng).hex(), 'rerr': 0, 'werr': 0, 'flavor': rng.choice([0, 0, 1, 3])}
+        chars.append(c)
+    extra = ac.gen_db(rng, max_services=1, small_values=True)['services']
+    db = {'services': [{'uuid': '180F', 'primary': True, 'chars': chars}] + extra, 'decl_perm': {}}
+    secs = rng.shuffle([(False, False), (True, False), (True, True)])
+    on = rng.choice([0, 1, None])
+    bearers = [{'mtu': rng.choice(MTUS), 'enc': secs[0][0], 'auth': secs[0][1], 'enh': False},
+               {'mtu': rng.choice(MTUS), 'enc': secs[1][0], 'auth': secs[1][1], 'enh': False}]
+    esec = secs[on] if on is not None else secs[2]
+    bearers.append({'mtu': rng.choice(MTUS), 'enc': esec[0], 'auth': esec[1], 'enh': True, 'on': on})
+    scn = {'db': db, 'bearers': bearers, 'max_mtu': 517, 'ops': []}
+    probe = ac.run_impl(dict(scn, ops=[]))
+    mdb = probe['db']
+    hs = [3 + 3 * i for i in range(len(chars))]
+    mtus = [b['mtu'] for b in bearers]
+    for _ in range(n_ops):
+        b = rng.below(3)
+        r = rng.below(24)
+        h = rng.choice(hs)
+        val = None if rng.chance(1, 4) else ac.gen_value(rng).hex()
+        if r < 3:
+            op = ['cccd', h, rng.choice(['0100', '0200', '0300', '0000', '01', '030000'])]
+        elif r < 7:
+            op = ['notify', h, val, rng.chance(1, 3)]
+        elif r < 13:
+            op = ['indicate', h, val, rng.chance(1, 2)]
+        elif r < 16:
+            op = ['rx', '1e']
+        elif r < 17:
+            op = ['rx2c']
+        elif r < 18:
+            m = rng.choice([x for x in MTUS if x >= mtus[b]] or [mtus[b]])
+            op = ['rx', (b'\x02' + ac.le16(m)).hex()]
+            mtus[b] = min(517, max(mtus[b], m))
+        else:
+            opc = rng.choice(ac.REQUEST_OPCODES + [0x52, rng.below(256)])
+            p = ac.gen_request(rng, opc, mdb, mtus[b])
+            if opc == 0x02:
+                p = ac.le16(rng.choice([x for x in MTUS if x >= mtus[b]] or [mtus[b]]))   # never lowered, see docs
+                mtus[b] = min(517, max(mtus[b], p[0] | (p[1] << 8)))
+            op = ['rx', (bytes([opc]) + p).hex()]
+        scn['ops'].append([b, op])
+    return scn
+
+
+def gen_burst_scenario(rng, k, n_ops):
+    """bursts: 2-6 PDUs handed to the bearer before the event loop runs again -- requests of every kind (also
+    malformed), Exchange MTU (raising), confirmations (one or several), commands, unknown opcodes -- between
+    notifications / indications; value functions that suspend are replaced by ones that do not"""
+    scn = gen_initiated_scenario(rng, 0) if k % 2 else gen_scenario(rng, k, 0)
+    for s in scn['db']['services']:
+        for c in s['chars']:
+            for x in [c] + c['descs']:
+                if x.get('flavor') == 2:
+                    x['flavor'] = 1
+    scn['ops'] = []
+    probe = ac.run_impl(scn)
+    mdb = probe['db']
+    mtu = scn['bearer']['mtu']
+    notifying = [a[7] for a in mdb if a[7]]
+    for _ in range(n_ops):
+        r = rng.below(10)
+        if r < 6:
+            burst = []
+            for _ in range(rng.range(2, 6)):
+                opc = rng.choice(ac.REQUEST_OPCODES + [0x52, 0x1E, 0x1E, 0x02, 0x04, rng.below(256)])
+                p = ac.gen_request(rng, opc, mdb, mtu)
+                if opc == 0x02:
+                    m = rng.choice([x for x in MTUS if x >= mtu] or [mtu])
+                    p = ac.le16(m)
+                    mtu = min(scn.get('max_mtu', 517), max(mtu, m))
+                burst.append((bytes([opc]) + p).hex())
+            scn['ops'].append(['burst', burst])
+        elif notifying and r < 9:
+            h = rng.choice(notifying)
+            scn['ops'].append([rng.choice(['indicate', 'indicate', 'notify']), h,
+                               None if rng.chance(1, 4) else ac.gen_value(rng).hex(), True])
+        else:
+            scn['ops'].append(['rx', '1e'])
+    return scn
+
+
 def load_corpus():
     out = []
     for path in sorted(glob.glob(os.path.join(CORPUS, '*.json'))):
@@ -193,13 +315,14 @@ def check_scenarios(ctx, labelled):
     from lib.verif import _jobs
     scns = [s for _, s in labelled]
     impl = [ac.run_impl(s) for s in scns]
-    exprs = [ac.coq_scenario(r['db'], s) for s, r in zip(scns, impl)]
+    exprs = [ac.coq_scenario_multi(r['db'], s) if 'bearers' in s else ac.coq_scenario(r['db'], s)
+             for s, r in zip(scns, impl)]
     model = ctx.coq_eval(['Model.AttServer'], exprs, shard=max(3, (len(exprs) + _jobs() - 1) // _jobs()))
     for k, ((label, s), r, mv) in enumerate(zip(labelled, impl, model)):
         m = ac.model_result(mv)
         nreq = sum(1 for o in r['ops'] if o[0] == 'rx' and bytes.fromhex(o[1])[0] in ac.REQUEST_OPCODES)
         ctx.case((label, s), nreq > 0 or label == 'initiated',
-                 {'kind': label, 'bearer': s['bearer'], 'ops': s['ops'][:6], 'outs': r['outs'][:6]} if k % 17 == 1 else None)
+                 {'kind': label, 'bearers': ac.scn_bearers(s), 'ops': s['ops'][:6], 'outs': r['outs'][:6]} if k % 17 == 1 else None)
         ctx.count(f'{label}.scenarios')
         ctx.count(f'{label}.ops', len(s['ops']))
         for a in r['db']:
@@ -208,10 +331,14 @@ def check_scenarios(ctx, labelled):
             elif a[5] or a[6]:
                 ctx.count('attr.read_%s.write_%s' % tuple('ok' if e == 0 else ('att_error' if e > 0 else 'other_exception')
                                                              for e in (a[5], a[6])))
-        ctx.count('bearer.enhanced' if s['bearer'].get('enh') else 'bearer.fixed')
-        ctx.count('security.%s%s' % ('enc' if s['bearer']['enc'] else 'plain', '+auth' if s['bearer']['auth'] else ''))
+        for b in ac.scn_bearers(s):
+            ctx.count('bearer.enhanced' if b.get('enh') else 'bearer.fixed')
+            ctx.count('security.%s%s' % ('enc' if b['enc'] else 'plain', '+auth' if b['auth'] else ''))
         for o, out in zip(r['ops'], r['outs']):
-            if o[0] == 'rx':
+            if o[0] == 'burst':
+                ctx.count('op.burst')
+                ctx.count('op.burst.pdus', len(o[1]))
+            elif o[0] == 'rx':
                 pdu = bytes.fromhex(o[1])
                 ctx.count('rx.op.0x%02X' % pdu[0] if pdu[0] in ac.REQUEST_OPCODES + [0x52, 0x1E, 0xD2] else 'rx.op.other')
             else:
@@ -226,7 +353,8 @@ def check_scenarios(ctx, labelled):
             ctx.disagree(f'{label}: model has no handler for an op', _replay(s), None, r['outs'])
         else:
             i = {'outs': [[ac.digest(bytes.fromhex(p)) for p in out] for out in r['outs']],
-                 'values': [ac.digest(bytes.fromhex(v)) for v in r['values']], 'mtu': r['mtu']}
+                 'values': [ac.digest(bytes.fromhex(v)) for v in r['values']],
+                 'mtu': r['final_mtus'] if 'bearers' in s else r['mtu']}
             if m != i:
                 bad = next((j for j, (a, b) in enumerate(zip(m['outs'], i['outs'])) if a != b), None)
                 ctx.disagree(f'{label}: model and implementation differ'
@@ -266,6 +394,8 @@ def run(ctx):
     batch += [('boundary', s) for s in boundary_suite(range(23, 23 + ctx.n(2, 60), 1), True)]
     batch += [('requests', gen_scenario(rng, k, 60)) for k in range(ctx.n(26, 1200))]
     batch += [('initiated', gen_initiated_scenario(rng, 40)) for _ in range(ctx.n(10, 400))]
+    batch += [('several-bearers', gen_multi_scenario(rng, k, 70)) for k in range(ctx.n(8, 300))]
+    batch += [('bursts', gen_burst_scenario(rng, k, 24)) for k in range(ctx.n(8, 300))]
     for i in range(0, len(batch), 160):
         check_scenarios(ctx, batch[i:i + 160])
     sent = ctx.extra.pop('opcodes_sent', set())
